@@ -110,10 +110,13 @@ theorem pCases_end (f : Nat) (ls : List Line) :
 theorem pCases_default (f : Nat) (ls : List Line) :
     pCases re (f+1) ([kw "case", kw "default"] :: ls) =
       (pStmts re f ls).bind fun b =>
-        match b.1, b.2 with
-        | _ :: _, e :: rest => if e = [kw "end", kw "select"] then some ([], b.1, rest) else none
-        | _, _ => none := by
-  unfold pCases
+        match b.1 with
+        | [] => none
+        | _ :: _ => (pCases re f b.2).bind fun cs =>
+            match cs.2.1 with
+            | [] => some (cs.1, b.1, cs.2.2)
+            | _ :: _ => none := by
+  conv => lhs; unfold pCases
   simp [kw] <;> rfl
 
 theorem pCases_case (f : Nat) (r : Line) (ls : List Line) :
